@@ -400,7 +400,7 @@ fn run(ctx: &mut Ctx) {
     let logs = ctx.scratch.root.join("logs");
     let _ = std::fs::create_dir_all(&logs);
     let mlog = logs.join("c11.log");
-    let n = ctx.tier.pick(600, 6000);
+    let n = ctx.tier.pick(600, 20_000);
     for i in 0..n {
         if !ctx.time_left() || ctx.violations.len() > 25 {
             break;
